@@ -9,15 +9,24 @@
 #include <memory>
 #include <optional>
 
+// Tracked: a non-trivial movable element.  Besides the token it carries (drop = the value itself was destroyed), every OBJECT is tracked
+// by its address: a destructor that runs on storage holding no live object (e.g. a moved-from slot destroyed twice) or a constructor
+// on storage that still holds one is reported as `dtwice` (C07: no element is destroyed twice).
+#include <set>
+struct TrackedLife {
+  static std::set<const void*>& live() { static std::set<const void*> s; return s; }
+  static void born(const void* p) { xv::race_ignore_begin(); bool fresh = live().insert(p).second; xv::race_ignore_end(); if (!fresh) xv::ev("ev", "dtwice", 1); }
+  static void died(const void* p) { xv::race_ignore_begin(); bool was = live().erase(p) == 1; xv::race_ignore_end(); if (!was) xv::ev("ev", "dtwice", 2); }
+};
 struct Tracked {
   long id = 0;
-  Tracked() = default;
-  explicit Tracked(long i) : id(i) {}
+  Tracked() { TrackedLife::born(this); }
+  explicit Tracked(long i) : id(i) { TrackedLife::born(this); }
   Tracked(const Tracked&) = delete;
   Tracked& operator=(const Tracked&) = delete;
-  Tracked(Tracked&& o) noexcept : id(o.id) { o.id = 0; }
+  Tracked(Tracked&& o) noexcept : id(o.id) { o.id = 0; TrackedLife::born(this); }
   Tracked& operator=(Tracked&& o) noexcept { if (this != &o) { drop(); id = o.id; o.id = 0; } return *this; }
-  ~Tracked() { drop(); }
+  ~Tracked() { drop(); TrackedLife::died(this); }
   void drop() { if (id) { xv::ev("ev", "drop", id); id = 0; } }
 };
 struct Item { int x; };
